@@ -18,14 +18,14 @@ CHECKS = {
             "dominance + who-may-call/write tables + ALL-EXITS path counting on a step-level CFG with exception and cancellation edges", "5 C01",
             TB + "Declined: the arithmetic bound and the idle-time equality is_full <=> running == size (follow from the discipline)."),
     "C02": ("HANDOFF rule (slot acquired by creator, released only in the new task's body: finding F1), life-cycle typestate over CFG x (registry, slot) on all edge kinds: every "
-            "exit of the wrapper has slot=free, registry=ended; wrapper armed before any suspension; SNAPSHOT-FORGET on flush; registry who-may-write table.",
+            "exit of the wrapper has slot=free, registry=ended; wrapper armed before any suspension; SNAPSHOT-FORGET on flush; registry who-may-write table; PUBLISHED-BEFORE-FIRST-STEP (the task is filed after create_task returned: finding F10 under an eager task factory).",
             "typestate abstract interpretation over CFG x finite state with callee summaries; HANDOFF and SNAPSHOT-FORGET rules", "5 C02",
-            TB + "Declined: 'eventually' (liveness) and end-of-run capacity counts. F1 is a recorded known finding."),
+            TB + "Declined: 'eventually' (liveness) and end-of-run capacity counts. F1 and F10 are recorded known findings."),
     "C03": ("Life-cycle typestate with callback roles: at every suspension/user step the id is in exactly one registry; cancel callback begun exactly once iff the coroutine left by "
             "cancellation, while filed as cancelled, before the end callback; end callback exactly once while filed as ended, slot already released, with the task id; "
             "registry transition who-may table; callback role wiring through every hop; execute_optional awaits coroutine callbacks; a supplied callback is run whatever its truth value (only `is None` / callable() decide that none was given); WHAT(Task.cancel): every receiver is an entry of the running registry or a spawner, also when looked up through a combined view of registries.",
             "typestate abstract interpretation (roles END/CANCEL/ID propagated through call bindings) + wiring + who-may tables", "5 C03",
-            TB + "Declined: the counter identity as arithmetic (follows from the transition table). F1 shared."),
+            TB + "Declined: the counter identity as arithmetic (follows from the transition table). F1 and F10 shared."),
     "C04": ("Per-iteration typestate of _apply_spawner/_start_num (exactly one func(*args, **kwargs) per iteration, handed to exactly one completed _start_task, raising call skipped, "
             "loop left early only by cancellation), range(num) shape, UNREACHABLE-RAISE of PoolIsLocked from spawners by constant propagation of ignore_lock, one spawner task "
             "per accepted request, argument role wiring, no time-outs.",
@@ -47,7 +47,7 @@ CHECKS = {
             TB + "Declined: re-entrant cancel from the group's own iterator (excluded by the property); progress of sibling groups (liveness)."),
     "C08": ("Order lock -> spawner waits -> task wait (all three registries) -> forget -> _closed.set() by completion-dominance; who-may set/clear the closed event; GATHER-COMPLETE "
             "(no swallowed early completion; cancelled-spawner gather uses return_exceptions=True); closed pools reject first (precedence in _check_start, VALIDATE-FIRST); "
-            "PoolIsLocked unreachable from spawners; FORGET-ONLY-GATHERED (may-analysis of registries that can hold an un-gathered task); HANDOFF shared; slot balance of the acquirer (a lost slot leaves a blocked spawner, and the close, waiting forever).",
+            "PoolIsLocked unreachable from spawners; FORGET-ONLY-GATHERED (may-analysis of registries that can hold an un-gathered task); HANDOFF shared; slot balance of the acquirer (a lost slot leaves a blocked spawner, and the close, waiting forever); a cancelled group's spawners are cancelled on every way through the group helper.",
             "completion-dominance on the CFG + GATHER-COMPLETE rule + constant propagation", "5 C08",
             TB + "Declined: 'returns only after every task finished' as a temporal statement (follows from the order + trusted gather). F1 shared."),
     "C09": ("VALIDATE-FIRST on every spawning entry point and the pool_size setter (no trace completes before any raising exit), precedence type-check < closed < locked, raise inventory "
@@ -64,33 +64,33 @@ CHECKS = {
             "skip-on-raise typestate, return_exceptions wiring into every task gather, FORGET-ONLY-GATHERED in gather_and_close, only user steps may raise in the life-cycle functions (registry-integrity lemma checked).",
             "typestate + exceptional-edge reachability + may-raise analysis", "5 C12", TB + "Declined: 'every other task proceeds exactly as if it had succeeded' (behavioural)."),
     "C13": ("SNAPSHOT-FORGET (removals after a suspension keyed by a pre-await snapshot whose tasks were gathered, or guarded by done()), flush has no effect on running tasks/other "
-            "state, exit dominated by the forgetting of both registries, return_exceptions wiring, no other raising step.",
+            "state (a rebuilt registry is read from the attribute, never through a reference taken before the wait), exit dominated by the forgetting of both registries, return_exceptions wiring, no other raising step.",
             "SNAPSHOT-FORGET data-flow rule + effect closure + dominance", "5 C13", TB + "Declined: overlapping flushes as a temporal statement (covered per call by the snapshot rule)."),
     "C14": ("Idiom-based: ids drawn from the reversed running registry, prefix bounded by num with the test before the append, delegated once to cancel(*ids), same list returned, "
             "stop_all == stop(num_running); the bound is the num parameter itself (`num or x` makes 0 mean all); also islice / slice / takewhile forms and helpers returning the list; "
             "positive rule: the value of an id never steers the selection (ids have gaps); cancel's own rules shared (NO-SWALLOW included). Unrecognised computations are inconclusive.",
             "syntax-directed idiom recognition + CFG dominance", "5 C14", TB + "Declined: nothing else is structural. F1 shared."),
     "C15": ("Getter must read configuration-only paths (violated: F5a), setter must not overwrite the occupancy-dependent counter with its parameter (F5b), raising the limit must wake "
-            "waiters (F5c), validation precedes the write with the exact comparison, the semaphore object waiters are parked on is bound once.",
+            "waiters (F5c), validation precedes the write with the exact comparison, the semaphore object waiters are parked on is bound once; SNAPSHOT-FORGET shared (a task forgotten inside its callback never releases its slot).",
             "effect analysis (who writes the paths the getter reads) + VALIDATE-FIRST", "5 C15", TB + "F5a-c are recorded known findings; mixed arithmetic is inconclusive, not a violation."),
     "C16": ("Handshake sequence by completion-dominance (read, json, parser with the session's buffer and the client's width, add_subparsers, add_class_commands(run-time class), "
             "name + newline, drain); command surface (getmembers, '_' filter with public_only default True, function/property dispatch, dash names, member stored under CMD, help enabled); "
-            "EXECUTABLE (a required argument is filed under the parameter name the session looks up); PARSER-CONFIG; TOTAL-INDEXING on the command-building path; TABLE(annotation kinds at run time vs what the converter does with them) over every public member of every pool class: finding F6.",
+            "EXECUTABLE (a required argument is filed under the parameter name the session looks up); PARSER-CONFIG; TOTAL-INDEXING on the command-building path; TABLE(annotation kinds at run time vs what the converter does with them) over every public member of every pool class: finding F6; an annotation is looked at by identity only (never hashed or compared by value).",
             "dominance on the CFG + producer/consumer table agreement (annotation kind vs converter domain)", "5 C16",
             TB + "Declined: the bytes on the wire; help text for every width (argparse run-time behaviour). F6 is a recorded known finding."),
     "C17": ("Dispatch structure of _exec_method_and_respond (self, positional kinds in signature order, *args after, rest by keyword, through return_or_exception), RESULT-USED at all "
             "three return_or_exception call sites with the reply forms ok-if-None-else-str / str, add_function_arg mapping incl. the bool-defaults-to-False table over the pool classes, "
-            "return_or_exception semantics (called once, awaited under the coroutine guard, Exception returned, nothing but cancellation escapes - call and await); TOKENS (what reaches parse_args is the line split at blanks, words unchanged); OK-CONSTANT (the reply for a None result is the decoded module constant whose value is the text 'ok'); OMIT-SELF (the omitted-parameter default names the receiver and nothing else); CONVERSION-SITES (a type converter is installed only by add_function_arg from the parameter's own annotation; no argparse action is re-configured); PARSER-CONFIG (argparse reading options stay at their defaults); UNCONVERTED-ONLY-SENTINEL (only the SUPPRESS object itself bypasses conversion); buffer isolation; annotation table shared (F6).",
+            "return_or_exception semantics (called once, awaited under the coroutine guard, Exception returned, nothing but cancellation escapes - call and await); TOKENS (what reaches parse_args is the line split at blanks, words unchanged); OK-CONSTANT (the reply for a None result is the decoded module constant whose value is the text 'ok'); OMIT-SELF (the omitted-parameter default names the receiver and nothing else); CONVERSION-SITES (a type converter is installed only by add_function_arg from the parameter's own annotation; no argparse action is re-configured); PARSER-CONFIG (argparse reading options stay at their defaults); UNCONVERTED-ONLY-SENTINEL (only the SUPPRESS object itself bypasses conversion); buffer isolation; WIRE-CODEC (UTF-8, strict, on both sides of the wire); annotation table shared (F6).",
             "syntax-directed structure rules + RESULT-USED data-flow + path counting", "5 C17",
             TB + "Declined: equality of effects for every argument value (translation over run-time values). F6 shared (known finding)."),
     "C18": ("HATCHES (all four argparse escape hatches overridden, no print/sys.std*/exit in parser, session, server; positive control in client), per-iteration protocol of listen by "
             "typestate (one read, one command, one reply, drained), containment as three structural sub-rules (handlers around parse_args cover ArgumentError/HelpRequested/ParserError and "
-            "fall through; type wrapper lets only ArgumentTypeError/TypeError/ValueError out; pool members invoked only through return_or_exception after a successful parse), buffer isolation, PARSER-CONFIG, UNCONVERTED-ONLY-SENTINEL, SESSION-IS-LOCAL (per-connection objects live in the connection callback's locals).",
+            "fall through; type wrapper lets only ArgumentTypeError/TypeError/ValueError out; pool members invoked only through return_or_exception after a successful parse), buffer isolation, PARSER-CONFIG, UNCONVERTED-ONLY-SENTINEL, SESSION-IS-LOCAL (per-connection objects live in the connection callback's locals); no lock shared between sessions is held across an await.",
             "hatch/who-may rules + iteration typestate + exceptional-exit inventory", "5 C18",
             TB + "Declined: one reply 'when the wait is over'; output of concurrent sessions (follows from per-instance state)."),
     "C19": ("serve_forever awaits only the start-up and returns the serving task; _serve_forever runs _final_callback exactly once on every way out once serving began and absorbs "
             "cancellation; the unix callback unlinks the path that was listened on; ALL-EXITS(_client_connected_cb => writer.close) over normal/exception/cancellation edges; listen "
-            "re-tests is_serving and leaves on EOF; NO-SPIN-AT-EOF (no stream read is repeated on an empty result without a real suspension in between); SESSION-IS-LOCAL; client closes and clears its flag on exit/EOF.",
+            "re-tests is_serving and leaves on EOF; NO-SPIN-AT-EOF (no stream read is repeated on an empty result without a real suspension in between); SESSION-IS-LOCAL; WHO(write of the server attribute) = constructor and serve_forever; no shared lock held across an await; client closes and clears its flag on exit/EOF.",
             "ALL-EXITS path counting over all edge kinds + data-flow equality of paths", "5 C19",
             TB + "Declined: everything observable only on real sockets (promptness, refusal of new connections, other sessions unaffected)."),
     "C20": ("__aenter__ takes exactly one item and reaches no task_done on any edge (in particular the cancellation edge of the waiting get); __aexit__ reaches task_done exactly once "
@@ -136,7 +136,7 @@ def main() -> None:
         "checks": checks,
         "notes": "Exit codes: 0 all obligations discharged (KNOWN-FINDING lines printed for listed findings); 1 unlisted violation (VIOLATION line); 2 analysis error/inconclusive. "
                  "Genuine defects repaired in /repo by 'fix:' commits 5efe713 (F2 flush), 73c6040 (F3 ignore_lock), 9f80802 (F4 gather_and_close), 2f24236 (F7 setter reply), "
-                 "9202657 (F8 writer.close), 4221d47 (F9 flush no longer swallows its caller's cancellation); open findings F1, F5a-c, F6 are listed in KNOWN_FINDINGS.txt. Self-test of the checker: PYTHONPATH=/verif /venv/bin/python -m tpsa.selftest",
+                 "9202657 (F8 writer.close), 4221d47 (F9 flush no longer swallows its caller's cancellation); open findings F1, F5a-c, F6, F10 are listed in KNOWN_FINDINGS.txt. Self-test of the checker: PYTHONPATH=/verif /venv/bin/python -m tpsa.selftest",
         "not_applicable": na,
     }
     with open(os.path.join(HERE, "MANIFEST.json"), "w") as fh:
